@@ -65,6 +65,9 @@ VARIABLES
     destroyed, \* ~scheduler ran
     now,       \* the (virtual) clock; constant 0 in manual mode
     gen,       \* manual, interval(): [st, stp]  st: "none" | "sleep" | "yield" | "done"; stp: stop requested
+    quiet,     \* ghost (manual): the last call changed nothing.  A call without effect (cancel() -> false)
+               \*   would be a self-loop of the state graph, which the path cover does not walk; with this
+               \*   flag it is a transition that is replayed like any other.
     \* start mode
     rq,        \* coro_queue: FIFO of ready entities (0 = worker coroutine, c >= 1 = client coroutines)
     run,       \* entity that executes now, -1 nobody
@@ -77,7 +80,7 @@ VARIABLES
     wdl,       \* deadline the worker is about to wait_until
     phase      \* "manual" | "pre" (awaitable started, worker not yet) | "run" | "returned" | "destroyed" | "hung"
 
-vars == <<heap, fut, nops, destroyed, now, gen, rq, run, cst, stop, wpc, wdl, phase>>
+vars == <<heap, fut, nops, destroyed, now, gen, quiet, rq, run, cst, stop, wpc, wdl, phase>>
 
 -----------------------------------------------------------------------------
 (* Part 1: the array and the libstdc++ heap algorithms.  Indices are the   *)
@@ -192,7 +195,7 @@ AllTps == TPs \cup (IF Interval # 0 THEN {Interval} ELSE {}) \cup {Inf}
 
 Init ==
     /\ heap = <<>> /\ fut = [k \in Slots |-> FreeRec]
-    /\ nops = 0 /\ destroyed = FALSE /\ now = 0 /\ gen = NoGen
+    /\ nops = 0 /\ destroyed = FALSE /\ now = 0 /\ gen = NoGen /\ quiet = FALSE
     /\ stop = FALSE /\ wpc = "poll" /\ wdl = 0
     /\ IF Mode = "manual"
          THEN /\ rq = <<>> /\ run = -1 /\ cst = <<>> /\ phase = "manual"
@@ -206,7 +209,9 @@ Init ==
 
 StartUnch == UNCHANGED <<now, rq, run, cst, stop, wpc, wdl, phase>>
 CanCall == Mode = "manual" /\ ~destroyed /\ (MaxOps = 0 \/ nops < MaxOps)
-Tick == nops' = IF MaxOps = 0 THEN nops ELSE nops + 1
+(* last conjunct of every call: counts it and sets the ghost `quiet` *)
+Tick == /\ nops' = (IF MaxOps = 0 THEN nops ELSE nops + 1)
+        /\ quiet' = (heap' = heap /\ fut' = fut /\ gen' = gen)
 
 (* the interval generator resumed because its sleep ended: normally -> next = now()+dur; co_yield
    (scheduler.h:319-320) => "yield"; with an exception -> it leaves the loop (:324) => "done" *)
@@ -221,8 +226,8 @@ Schedule(tp, id, ntf) ==
     /\ ntf = B(NotifyNeeded(heap, tp))
     /\ heap' = HeapInsert(heap, [tp |-> tp, id |-> id, k |-> FreeSlot])
     /\ fut' = NewFut(fut, FreeSlot, tp, 0)
-    /\ Tick
     /\ UNCHANGED <<destroyed, gen>> /\ StartUnch
+    /\ Tick
 
 (* get_expired(now), scheduler.h:107-110.  Output: ("promise", k) -- the client resolves the promise
    it got, the sleep in slot k completes normally -- or ("time", time point) *)
@@ -234,8 +239,8 @@ GetExpired(t, kind, v) ==
         /\ heap' = r.heap
         /\ fut' = Free(fut, r.k)
         /\ gen' = GenAfter(gen, r.k, "done")
-    /\ Tick
     /\ UNCHANGED destroyed /\ StartUnch
+    /\ Tick
 
 (* remove(id), scheduler.h:127-139.  Output k: the promise of the sleep in slot k (the client drops it
    => that sleep ends with no value, "canceled"), 0: an empty promise *)
@@ -246,8 +251,8 @@ Remove(id, k) ==
         /\ heap' = r.heap
         /\ fut' = Free(fut, r.k)
         /\ gen' = GenAfter(gen, r.k, "canceled")
-    /\ Tick
     /\ UNCHANGED destroyed /\ StartUnch
+    /\ Tick
 
 (* cancel(id) :185-187 (x = "exc") / cancel(id,e) :198-205 (x = "custom").  Output k: true, the sleep
    in slot k completed with that exception; 0: false *)
@@ -258,8 +263,8 @@ Cancel(id, x, k) ==
         /\ heap' = r.heap
         /\ fut' = Free(fut, r.k)
         /\ gen' = GenAfter(gen, r.k, x)
-    /\ Tick
     /\ UNCHANGED destroyed /\ StartUnch
+    /\ Tick
 
 (* interval(dur, token), scheduler.h:306-327, in manual mode; the clock reads 0.
    IntervalCall: the client calls the generator (`gen()`): it runs to sleep_until(next, &tag) (:317-318),
@@ -275,8 +280,8 @@ IntervalCall(ntf) ==
               /\ heap' = HeapInsert(heap, [tp |-> now + Interval, id |-> IntervalId, k |-> FreeSlot])
               /\ fut' = NewFut(fut, FreeSlot, now + Interval, -1)
               /\ gen' = [gen EXCEPT !.st = "sleep"]
-    /\ Tick
     /\ UNCHANGED destroyed /\ StartUnch
+    /\ Tick
 
 (* request_stop() on the token: the stop callback (:309-311), if the generator has started (the
    callback object lives in its frame), calls cancel(&tag).  Output k: the slot cancelled or 0 *)
@@ -287,8 +292,8 @@ IntervalStop(k) ==
         /\ heap' = r.heap
         /\ fut' = Free(fut, r.k)
         /\ gen' = [GenAfter(gen, r.k, "exc") EXCEPT !.stp = TRUE]
-    /\ Tick
     /\ UNCHANGED destroyed /\ StartUnch
+    /\ Tick
 
 (* ~scheduler with no worker (:330-335): the vector is destroyed, every promise still set is
    dropped => its future becomes ready without a value (a generator sleeping in interval() ends) *)
@@ -298,7 +303,15 @@ Destroy ==
     /\ fut' = [k \in Slots |-> FreeRec]
     /\ heap' = <<>>
     /\ gen' = IF gen.st = "sleep" THEN [gen EXCEPT !.st = "done"] ELSE gen
+    /\ quiet' = FALSE
     /\ UNCHANGED nops /\ StartUnch
+
+(* a new scheduler (and interval generator, stop source) is constructed: histories continue over
+   several lifetimes, and the state graph has no dead end *)
+Construct ==
+    /\ Mode = "manual" /\ destroyed
+    /\ destroyed' = FALSE /\ gen' = NoGen /\ nops' = 0 /\ quiet' = FALSE
+    /\ UNCHANGED <<heap, fut>> /\ StartUnch
 
 ManualNext ==
     \/ \E tp \in TPs, id \in Ids, ntf \in {0, 1} : Schedule(tp, id, ntf)
@@ -309,6 +322,7 @@ ManualNext ==
     \/ \E ntf \in {0, 1} : IntervalCall(ntf)
     \/ \E k \in Slots0 : IntervalStop(k)
     \/ Destroy
+    \/ Construct
 
 -----------------------------------------------------------------------------
 (* Part 4: start(awaitable) in a single thread, virtual time.
@@ -348,7 +362,7 @@ CoSleep(c, tp, id, ntf) ==
     /\ cst' = [cst EXCEPT ![c] = [st |-> "sleep", wst |-> "none", wat |-> 0]]
     /\ Yield(rq, stop)
     /\ nops' = nops + 1
-    /\ UNCHANGED <<destroyed, now, gen, stop, wdl>>
+    /\ UNCHANGED <<destroyed, now, gen, quiet, stop, wdl>>
 
 (* bool r = sched.cancel(id[,e]): the sleeper is appended to the queue, the caller goes on *)
 CoCancel(c, id, x, k) ==
@@ -362,7 +376,7 @@ CoCancel(c, id, x, k) ==
                   /\ cst' = Woken(cst, fut[r.k].co, x, now)
              ELSE UNCHANGED <<rq, cst>>
     /\ nops' = nops + 1
-    /\ UNCHANGED <<destroyed, now, gen, run, stop, wpc, wdl, phase>>
+    /\ UNCHANGED <<destroyed, now, gen, quiet, run, stop, wpc, wdl, phase>>
 
 (* co_return; for the awaited coroutine (1) the callback of start() runs at once (symmetric transfer
    to the awaiting callback_await coroutine, async.h:229-241) and calls stps.request_stop() (:252,:270) *)
@@ -371,7 +385,7 @@ CoFinish(c) ==
     /\ cst' = [cst EXCEPT ![c] = [st |-> "done", wst |-> "none", wat |-> 0]]
     /\ stop' = (stop \/ c = 1)
     /\ Yield(rq, stop \/ c = 1)
-    /\ UNCHANGED <<heap, fut, nops, destroyed, now, gen, wdl>>
+    /\ UNCHANGED <<heap, fut, nops, destroyed, now, gen, quiet, wdl>>
 
 (* one turn of worker_coro<false> after `co_await pause()` returned, scheduler.h:388-411:
    lock; now = system_clock::now(); get_expired_lk(now);
@@ -392,7 +406,7 @@ WorkerPoll(k) ==
                   /\ IF rq = <<>>
                        THEN /\ wpc' = "wait" /\ wdl' = r.next /\ UNCHANGED <<run, rq, phase>>
                        ELSE /\ Yield(Append(rq, 0), stop) /\ UNCHANGED wdl
-    /\ UNCHANGED <<nops, destroyed, now, gen, stop>>
+    /\ UNCHANGED <<nops, destroyed, now, gen, quiet, stop>>
 
 (* _cond.wait_until(lk, x), :407, under virtual time: nobody can notify (single thread), the wait
    ends at its deadline.  wait_until(time_point::max()) never ends: the thread hangs. *)
@@ -401,13 +415,13 @@ WorkerWait ==
     /\ IF wdl = Inf
          THEN /\ phase' = "hung" /\ UNCHANGED <<now, wpc>>
          ELSE /\ now' = (IF wdl > now THEN wdl ELSE now) /\ wpc' = "poll" /\ UNCHANGED phase
-    /\ UNCHANGED <<heap, fut, nops, destroyed, gen, rq, run, cst, stop, wdl>>
+    /\ UNCHANGED <<heap, fut, nops, destroyed, gen, quiet, rq, run, cst, stop, wdl>>
 
 (* the worker ended and the queue drained: install_queue_and_call returns, start() returns (:260,:279) *)
 StartReturn ==
     /\ Mode = "start" /\ phase = "run" /\ run = -1
     /\ phase' = "returned"
-    /\ UNCHANGED <<heap, fut, nops, destroyed, now, gen, rq, run, cst, stop, wpc, wdl>>
+    /\ UNCHANGED <<heap, fut, nops, destroyed, now, gen, quiet, rq, run, cst, stop, wpc, wdl>>
 
 (* ~scheduler after start() returned: sleepers still pending are resumed (inline) with no-value *)
 DestroyAfterStart ==
@@ -417,7 +431,14 @@ DestroyAfterStart ==
     /\ heap' = <<>>
     /\ cst' = [c \in 1..NC |-> IF cst[c].st = "sleep" THEN [st |-> "done", wst |-> "canceled", wat |-> now]
                                                         ELSE cst[c]]
-    /\ UNCHANGED <<nops, now, gen, rq, run, stop, wpc, wdl>>
+    /\ UNCHANGED <<nops, now, gen, quiet, rq, run, stop, wpc, wdl>>
+
+(* start() is used again with a new scheduler: the state graph has no dead end *)
+Restart ==
+    /\ Mode = "start" /\ phase = "destroyed"
+    /\ nops' = 0 /\ destroyed' = FALSE /\ now' = 0 /\ stop' = FALSE /\ wpc' = "poll" /\ wdl' = 0
+    /\ rq' = [i \in 1..(NC - 1) |-> i + 1] /\ run' = 1 /\ cst' = [c \in 1..NC |-> NoWake] /\ phase' = "pre"
+    /\ UNCHANGED <<heap, fut, gen, quiet>>
 
 StartNext ==
     \/ \E c \in 1..NC, tp \in TPs, id \in Ids, ntf \in {0, 1} : CoSleep(c, tp, id, ntf)
@@ -427,6 +448,7 @@ StartNext ==
     \/ WorkerWait
     \/ StartReturn
     \/ DestroyAfterStart
+    \/ Restart
 
 Next == ManualNext \/ StartNext
 
@@ -542,7 +564,7 @@ PromptWhenIdle ==
 
 (* ... and the sleeper sees that time when it runs: the clock does not move while somebody is ready *)
 ClockStandsWhileReady ==
-    [][now' # now => (rq = <<>> /\ run = 0 /\ \A c \in 1..NC : cst[c].st # "ready")]_vars
+    [][(now' # now /\ phase # "destroyed") => (rq = <<>> /\ run = 0 /\ \A c \in 1..NC : cst[c].st # "ready")]_vars
 
 (* the clock never runs past a pending deadline *)
 NoOversleep ==
@@ -565,6 +587,6 @@ ReturnsWhenFinished ==
     /\ (phase = "run" /\ run = -1) => wpc = "exit"
 NoHang == phase # "hung"
 (* ... and it does return (and the scheduler can be destroyed) *)
-StartTerminates == Mode = "start" => <>(phase = "destroyed")
+StartTerminates == Mode = "start" => []<>(phase = "destroyed")
 
 =============================================================================
